@@ -36,7 +36,57 @@ Theorem C06_eq_spec : forall b1 s1 b2 s2, dr_eq b1 s1 b2 s2 = true <->
   forall d, d1970 <= d <= d2200 -> b1 d = b2 d /\ s1 d = s2 d.
 Proof. exact dr_eq_spec. Qed.
 
+(* the named calendar is, date for date (every date, not just 1970-2200) and under ==, the explicit UnionCal of the
+   tables its parts are wired to; and conversely every string whose parts are all wired yields exactly that union *)
+Theorem C06_named_date_for_date : forall s n, named_try_new s = Ok n ->
+  exists cs ss, named_parts s cs ss /\
+    (forall d, ncal_is_bus n d = forallb (fun c => cal_is_bus c d) cs /\
+               ncal_is_settle n d = match ss with None => true | Some v => forallb (fun c => cal_is_bus c d) v end /\
+               ncal_is_bus n d = ucal_is_bus (mkUCal cs ss) d /\ ncal_is_settle n d = ucal_is_settle (mkUCal cs ss) d /\
+               ncal_is_weekday n d = ucal_is_weekday (mkUCal cs ss) d /\ ncal_is_holiday n d = ucal_is_holiday (mkUCal cs ss) d) /\
+    ncal_eq_any n (ucal_is_bus (mkUCal cs ss)) (ucal_is_settle (mkUCal cs ss)) = true /\
+    ucal_eq_any (mkUCal cs ss) (ncal_is_bus n) (ncal_is_settle n) = true.
+Proof. exact named_date_for_date. Qed.
+Theorem C06_named_iff_parts : forall s u, (exists n, named_try_new s = Ok n /\ n_ucal n = u) <->
+  exists cs ss, named_parts s cs ss /\ u = mkUCal cs ss.
+Proof. exact named_iff_parts. Qed.
+(* flipping the case of any ASCII letters of the string changes nothing *)
+Theorem C06_case_flip : forall s1 s2, Forall2 same_letter s1 s2 -> named_try_new s1 = named_try_new s2.
+Proof. exact named_case_flip. Qed.
+(* the four PartialEq impls of calendar.rs (UnionCal == any, NamedCal == any, Cal == UnionCal, Cal == NamedCal) *)
+Theorem C06_eq_union_any : forall u b2 s2, ucal_eq_any u b2 s2 = true <->
+  forall d, d1970 <= d <= d2200 -> ucal_is_bus u d = b2 d /\ ucal_is_settle u d = s2 d.
+Proof. exact ucal_eq_any_spec. Qed.
+Theorem C06_eq_named_any : forall n b2 s2, ncal_eq_any n b2 s2 = true <->
+  forall d, d1970 <= d <= d2200 -> ncal_is_bus n d = b2 d /\ ncal_is_settle n d = s2 d.
+Proof. exact ncal_eq_any_spec. Qed.
+Theorem C06_eq_cal_union : forall c u, cal_eq_ucal c u = true <->
+  forall d, d1970 <= d <= d2200 -> cal_is_bus c d = ucal_is_bus u d /\ cal_is_settle c d = ucal_is_settle u d.
+Proof. exact cal_eq_ucal_spec. Qed.
+Theorem C06_eq_cal_named : forall c n, cal_eq_ncal c n = true <->
+  forall d, d1970 <= d <= d2200 -> cal_is_bus c d = ncal_is_bus n d /\ cal_is_settle c d = ncal_is_settle n d.
+Proof. exact cal_eq_ncal_spec. Qed.
+
+(* the supported range is 1970-01-01 .. 2200-12-31 *)
+Example C06_range : days_from_civil 1970 1 1 = d1970 /\ days_from_civil 2200 12 31 = d2200.
+Proof. vm_compute. auto. Qed.
 Example C06_example :
   is_ok (named_try_new (str_of_string "TGT,ldn|Fed")) = true /\
   named_try_new (str_of_string "tgt|ldn|fed") = Err /\ named_try_new (str_of_string "tgt,") = Err.
 Proof. vm_compute. auto. Qed.
+
+Print Assumptions C06_union_bus.
+Print Assumptions C06_union_settle.
+Print Assumptions C06_named_is_union.
+Print Assumptions C06_case_insensitive.
+Print Assumptions C06_lower_idempotent.
+Print Assumptions C06_errors.
+Print Assumptions C06_no_abort.
+Print Assumptions C06_eq_spec.
+Print Assumptions C06_named_date_for_date.
+Print Assumptions C06_named_iff_parts.
+Print Assumptions C06_case_flip.
+Print Assumptions C06_eq_union_any.
+Print Assumptions C06_eq_named_any.
+Print Assumptions C06_eq_cal_union.
+Print Assumptions C06_eq_cal_named.
